@@ -108,6 +108,13 @@ theorem container_overlong_has_no_prefix (n : Nat) (h : 4294967296 ≤ n) : arrH
 
 /-! ## files -/
 
+example : ParamOk exampleParam := exampleParamOk
+example : (Param.save (some exampleParam) true).isSome = true := by decide
+example : ModelOk [([[97], [98]], some exampleParam), ([[97], []], some exampleParam)] :=
+  ⟨by simp, by decide, fun k p h => by
+    simp only [List.mem_cons, Prod.mk.injEq, Option.some.injEq, List.mem_nil_iff, or_false] at h
+    rcases h with ⟨rfl, rfl⟩ | ⟨rfl, rfl⟩ <;> exact ⟨⟨by simp, by simp⟩, exampleParamOk⟩⟩
+
 /-- Saving a parameter and loading the file (whatever follows it) into any Parameter object, on
 either device, in all four `with_stats` combinations: value bit-for-bit, shape, zero gradient,
 statistics with their names iff saved and asked for. -/
